@@ -415,6 +415,41 @@ fn clone_conformance(rep: &mut Report, seed: u64) {
     rep.hit_n("clone_conformance_scripts", n);
 }
 
+/// Unrelated detectors constructed and re-parameterised on all cores AT THE SAME TIME, with times
+/// from a small pool so that different threads keep asking for different and for equal times:
+/// every detector must use the gains of ITS OWN times (anything shared between detectors - a
+/// process-wide cache - shows as a gain that belongs to another thread's request). Each
+/// iteration: new(attack, release), one attack step (0 -> 1), one release step (-> 0), then the
+/// release time re-sent unchanged and another release step.
+fn concurrent_detectors(rep: &mut Report, seed: u64, threads: usize, iters: u64) {
+    let pool = [0.5f32, 1.0, 2.0, 3.0, 5.0, 8.0, 13.0, 64.0];
+    let reps = vmon::par_for(threads, threads as u64, 1, |_| Report::new("C19", "w"), |rep, t| {
+        let mut rng = Rng::derive(seed, &[193, t]);
+        for i in 0..iters {
+            let (a, r) = (pool[rng.usize_below(pool.len())], pool[rng.usize_below(pool.len())]);
+            let (ga, gr) = (gain_ref(a), gain_ref(r));
+            let mut d = Detector::new(dasp_envelope::detect::Peak::full_wave(), a, r);
+            let o1 = d.next(1.0f32) as f64;
+            let w1 = 1.0 + ga * (0.0 - 1.0);
+            let o2 = d.next(0.0f32) as f64;
+            let w2 = gr * o1;
+            d.set_release_frames(r);
+            let o3 = d.next(0.0f32) as f64;
+            let w3 = gr * o2;
+            let tol = 4e-7;
+            if (o1 - w1).abs() > tol || (o2 - w2).abs() > tol || (o3 - w3).abs() > tol {
+                rep.violation("envelope|concurrent_detectors|gain_of_another_request", format!("thread {} iteration {}: attack {} release {}: outputs {:e} {:e} {:e}, the one-pole steps with gains exp(-1/{}) = {:e} and exp(-1/{}) = {:e} give {:e} {:e} {:e}", t, i, a, r, o1, o2, o3, a, ga, r, gr, w1, w2, w3), format!("kind=concurrent;seed={};threads={};iters={}", seed, threads, iters));
+                break;
+            }
+        }
+        rep.eval(3 * iters);
+        rep.hit("detectors_parameterised_concurrently");
+    });
+    for r in reps {
+        rep.merge(r);
+    }
+}
+
 fn sched_for(rng: &mut Rng, n: usize, which: usize) -> Sched {
     // non-negative times, including the IEEE corner cases a `== 0.0` / `>= 0.0` guard meets:
     // negative zero (equal to zero, satisfies >= 0), subnormals, the smallest normal, huge values
@@ -538,6 +573,10 @@ fn main() {
         if m["kind"] == "env" {
             let pattern: &'static str = PATTERNS.iter().copied().find(|p| *p == m["pattern"]).unwrap();
             run_any(&mut rep, &m["fmt"], m["ch"].parse().unwrap(), m["det"].parse().unwrap(), pattern, m["n"].parse().unwrap(), m["seed"].parse().unwrap(), m["which"].parse().unwrap());
+        } else if m["kind"] == "concurrent" {
+            concurrent_detectors(&mut rep, m["seed"].parse().unwrap(), m["threads"].parse().unwrap(), m["iters"].parse().unwrap());
+        } else if m["kind"] == "clone" {
+            clone_conformance(&mut rep, cli.seed);
         } else {
             rectifiers(&mut rep, cli.seed, 10_000);
         }
@@ -546,6 +585,8 @@ fn main() {
     }
     rep.oblige("clone_conformance_scripts", 1);
     clone_conformance(&mut rep, cli.seed);
+    rep.oblige("detectors_parameterised_concurrently", 2);
+    concurrent_detectors(&mut rep, cli.seed, cli.threads.max(2), cli.t(300_000, 5_000_000));
     for o in ["attack_steps", "release_steps", "zero_time_steps", "negative_zero_time_steps", "one_ulp_parameter_glides", "mid_stream_parameter_changes"] {
         rep.oblige(o, 1);
     }
